@@ -350,7 +350,7 @@ UtxosChecks(m) ==
   LET errs == AddrErrs \cup (IF McOf > Len(Best(m)) THEN {"MinConfirmationsTooLarge"} ELSE {}) IN
   IF errs # {}
   THEN << <<"utxos.error", TRUE, R.ans.k = "err" /\ R.ans.err \in errs>> >>
-  ELSE IF R.ans.k # "ok" THEN << <<"utxos.answer", "ok", R.ans>> >>
+  ELSE IF R.ans.k # "ok" THEN << <<"utxos.answer", "ok", R.ans.k>> >>
   ELSE LET v == UtxosView(m, R.addr, McOf)
            got == {R.ans.utxos[i] : i \in 1..Len(R.ans.utxos)}
            lim == IF R.limit = 0 THEN 1000 ELSE R.limit
@@ -366,7 +366,7 @@ BalanceChecks(m) ==
   LET errs == AddrErrs \cup (IF McOf > Len(Best(m)) THEN {"MinConfirmationsTooLarge"} ELSE {}) IN
   IF errs # {}
   THEN << <<"balance.error", TRUE, R.ans.k = "err" /\ R.ans.err \in errs>> >>
-  ELSE IF R.ans.k # "ok" THEN << <<"balance.answer", "ok", R.ans>> >>
+  ELSE IF R.ans.k # "ok" THEN << <<"balance.answer", "ok", R.ans.k>> >>
   ELSE << <<"balance.value." \o McTag, BalanceView(m, R.addr, McOf).ok, R.ans.v>> >>
 
 \* C05 as a direct relation between two answers of the code (same address, same filter, same state)
@@ -379,7 +379,7 @@ HeadersChecks(m) ==
   LET v == HeadersView(m, R.s, R.e) IN
   IF Has(v, "err")
   THEN << <<"headers.error", [k |-> "err", err |-> v.err], R.ans>> >>
-  ELSE IF R.ans.k # "ok" THEN << <<"headers.answer", "ok", R.ans>> >>
+  ELSE IF R.ans.k # "ok" THEN << <<"headers.answer", "ok", R.ans.k>> >>
   ELSE << <<"headers.list", v.headers, R.ans.headers>>,
           <<"headers.tipHeight", v.tipHeight, R.ans.tipHeight>>,
           <<"headers.all80", TRUE, R.ans.all80>>,
@@ -462,7 +462,7 @@ TraceWalkStart ==
              /\ AllAgree(<< <<"walk.error", [k |-> "err", err |-> "MinConfirmationsTooLarge"], R.ans>> >>) \in BOOLEAN
         ELSE IF R.ans.k # "ok"
         THEN /\ walks' = walks
-             /\ AllAgree(<< <<"walk.answer", "ok", R.ans>> >>) \in BOOLEAN
+             /\ AllAgree(<< <<"walk.answer", "ok", R.ans.k>> >>) \in BOOLEAN
         ELSE LET v == UtxosView(m, R.addr, c)
                  page == SeqSet(R.ans.utxos)
                  ok == AllAgree(<< <<"walk.tip", v.tip, R.ans.tip>>,
@@ -494,7 +494,7 @@ TraceWalkNext ==
                   /\ AllAgree(<< <<"walk.tipGone", [k |-> "err", err |-> "UnknownTipBlockHash"], R.ans>> >>) \in BOOLEAN
              ELSE IF R.ans.k # "ok"
              THEN /\ walks' = {y \in walks : y.w # R.w}
-                  /\ AllAgree(<< <<"walk.answer", "ok", R.ans>> >>) \in BOOLEAN
+                  /\ AllAgree(<< <<"walk.answer", "ok", R.ans.k>> >>) \in BOOLEAN
              ELSE LET page == SeqSet(R.ans.utxos)
                       seen2 == x.seen \cup page
                       ok == AllAgree(<< <<"walk.tip", x.tip, R.ans.tip>>,
